@@ -68,6 +68,7 @@ from exabgp.rib.route import Route
 
 # IP address validation constants
 EXTENDED_COMMUNITY_TARGET_PARTS = 2  # Target extended community has 2 parts (ASN:value)
+COMMUNITY_HALF_MAX = 0xFFFF  # each half of a community written as <n>:<n> is two octets (RFC 1997)
 
 
 def prefix(tokeniser: 'Tokeniser') -> IPRange:
@@ -358,10 +359,10 @@ def _community(value: str) -> Community:
 
         prefix_int, suffix_int = int(prefix), int(suffix)
 
-        if prefix_int > Community.MAX:
+        if prefix_int > COMMUNITY_HALF_MAX:
             raise ValueError('invalid community {} (prefix too large)'.format(value))
 
-        if suffix_int > Community.MAX:
+        if suffix_int > COMMUNITY_HALF_MAX:
             raise ValueError('invalid community {} (suffix too large)'.format(value))
 
         return Community(pack('!L', (prefix_int << 16) + suffix_int))
